@@ -43,6 +43,24 @@ def run(tier):
             if i not in cov["issues"]:
                 cov["issues"].append(i)
         cov["self_test"] = "a line with its result changed by one is reported"
+        # 64-bit arguments (edges of int64 / uint64, overflow branch), Big.tla arithmetic
+        outb = os.path.join(work, "convk-big.ndjson")
+        rc, o = vlib.run([vh, "convk", "-big", "-out", outb], timeout=300)
+        if rc != 0:
+            raise vlib.Infra("vh convk -big failed: %s" % o[-400:])
+        nb = len(open(outb).read().splitlines())
+        rb = vlib.tlc("Trace_ConvertBig", cfg="Trace_ConvertBig.cfg", workers=1, files=[("trace.ndjson", outb)], timeout=1800, deadlock=False)
+        mb = re.search(r'<<"DONE", (\d+), (\d+), (\d+)>>', rb.out)
+        if rb.rc != 0 or not mb or int(mb.group(1)) != nb:
+            raise vlib.Infra("Trace_ConvertBig failed: %s" % rb.out[-800:])
+        cov["kernel_calls_compared_64bit"] = nb
+        cov["of_them_refused_or_overflowing"] = int(mb.group(3))
+        cov["mismatches"] += int(mb.group(2))
+        for x in re.findall(r'^"ISSUE (.*)"\s*$', rb.out, re.M):
+            i = json.loads(json.loads('"' + x + '"'))
+            if i[0]["ok"] != i[1]["ok"]:
+                cov["mismatches_refusal"] += 1
+            cov["issues"].append(i)
         _cache["r"] = cov
         return cov
     finally:
